@@ -41,6 +41,7 @@ type Harness struct {
 	Overlay   map[string]string
 	Includes  []string
 	Assumes   []string
+	Census    []string // scope prefix, allow-list file (relative to the harness), excluded package prefixes...
 }
 
 type entrySpec struct {
@@ -125,6 +126,8 @@ func parseHarness(file string) (*Harness, error) {
 			for k, v := range tierKV(arg) {
 				h.TimeLimit[k] = int(v)
 			}
+		case "census": // //vx:census <package path prefix> <allow-list file> [excluded package prefix ...]
+			h.Census = strings.Fields(arg)
 		case "assume": // //vx:assume <free text>: an assumption of the harness, copied into the evidence file
 			h.Assumes = append(h.Assumes, arg)
 		case "include": // //vx:include <file relative to the harness dir>: extra file of the same package (shared models)
@@ -651,6 +654,39 @@ func main() {
 			}
 		}
 		ev.Bounds[filepath.Base(f)+":loop-unwinding-limit"] = h.Unwind
+		if len(h.Census) >= 2 {
+			allowFile := filepath.Join(filepath.Dir(h.File), h.Census[1])
+			allow, aerr := loadAllow(allowFile)
+			if aerr != nil {
+				fmt.Println("CENSUS ERROR", aerr)
+				ev.inconclusive("census: " + aerr.Error())
+				exit = max(exit, 2)
+			} else {
+				t1 := time.Now()
+				sites := runCensus(l.cfg.prog, h.Census[0], h.Census[2:])
+				bad, fns, stale := censusReport(sites, allow)
+				status := "ok"
+				for i, b := range bad {
+					ncex++
+					path := filepath.Join(outDir, fmt.Sprintf("cex-%03d.json", ncex))
+					writeJSON(path, map[string]any{"property": *id, "harness": f, "tier": *tier, "census_site": b.String()})
+					if i < 5 {
+						fmt.Printf("VIOLATION property=%s replay=%s\n  census: %s is not on the allow-list %s\n", *id, path, b.String(), h.Census[1])
+					}
+					ev.Violations++
+					status = "violation"
+				}
+				for _, st := range stale {
+					ev.Notes = append(ev.Notes, "census: allow-listed function no longer writes to a physical backend (stale entry): "+st)
+				}
+				ev.Entries = append(ev.Entries, map[string]any{"harness": filepath.Base(f), "entry": "census:" + h.Census[0], "status": status,
+					"paths": 0, "obligations": len(sites), "discharged": len(sites) - len(bad), "call_sites": len(sites), "functions_with_physical_writes": fns, "wall_s": round3(time.Since(t1).Seconds()),
+					"obligation_labels": []string{"every function that writes to a physical.Backend outside the barrier is on the allow-list"}})
+				ev.Obligations += len(sites)
+				ev.Discharged += len(sites) - len(bad)
+				fmt.Printf("== %s/census(%s): %s call-sites=%d functions=%d not-allowed=%d stale=%d\n", filepath.Base(f), h.Census[0], status, len(sites), len(fns), len(bad), len(stale))
+			}
+		}
 		reached := map[string]int{}
 		for _, e := range h.Entries {
 			if !e.Tiers[*tier] || (*only != "" && e.Name != *only) {
@@ -818,6 +854,7 @@ func doReplay(path, repo, solver string) int {
 		Harness  string `json:"harness"`
 		Tier     string `json:"tier"`
 		Cex      *Cex   `json:"cex"`
+		Census   string `json:"census_site"`
 	}
 	if err := json.Unmarshal(b, &rec); err != nil {
 		fmt.Println("bad replay file", err)
@@ -832,6 +869,27 @@ func doReplay(path, repo, solver string) int {
 	if err != nil {
 		fmt.Println(err)
 		return 2
+	}
+	if rec.Census != "" { // a census finding: does the current tree still contain that unlisted call site?
+		if len(h.Census) < 2 {
+			fmt.Println("harness has no census directive")
+			return 2
+		}
+		allow, aerr := loadAllow(filepath.Join(filepath.Dir(h.File), h.Census[1]))
+		if aerr != nil {
+			fmt.Println(aerr)
+			return 2
+		}
+		bad, _, _ := censusReport(runCensus(l.cfg.prog, h.Census[0], h.Census[2:]), allow)
+		want := rec.Census[:strings.Index(rec.Census+" calls ", " calls ")]
+		for _, s := range bad {
+			if s.Fn == want {
+				fmt.Printf("VIOLATION property=%s replay=%s\n  census: %s\n", rec.Property, path, s.String())
+				return 1
+			}
+		}
+		fmt.Println("replay: the unlisted physical write is not present on the current tree")
+		return 0
 	}
 	failed, errs := replayCex(l, rec.Cex, solver)
 	fmt.Printf("replay of %s entry=%s inputs=%s\n", rec.Property, rec.Cex.Entry, shortModel(rec.Cex.Model))
